@@ -12,7 +12,9 @@ use std::mem;
 
 verus! {
 
+//@keep-cfg statistics
 //@include _shared/handler_prelude.rs
+//@include _shared/statistics_items.rs
 opaque!(Object);
 opaque!(Service);
 opaque!(PendingFunctionCall);
@@ -101,6 +103,7 @@ impl ConnectionState {
 
 impl Broker {
     //@include _shared/chan_inv.rs
+    //@include _shared/statistics_specs.rs
     //@include _shared/remove_channel_end_contract.rs
 
     //@fn broker/src/broker.rs Broker::close_channel_end
@@ -129,6 +132,12 @@ impl Broker {
                     &&& final(self).channels@[req.cookie].end_state(req.end) is Closed
                     &&& final(self).channels@[req.cookie].other_state(req.end) == old(self).channels@[req.cookie].other_state(req.end)
                 },
+            // statistics: the channel counter follows the channel table, the other counters are untouched
+            old(self).stat_channels_ok() ==> final(self).stat_channels_ok(),
+            final(self).statistics.num_connections == old(self).statistics.num_connections,
+            final(self).statistics.num_objects == old(self).statistics.num_objects,
+            final(self).statistics.num_services == old(self).statistics.num_services,
+            final(self).statistics.num_bus_listeners == old(self).statistics.num_bus_listeners,
     //@end
 
     //@fn broker/src/broker.rs Broker::add_channel_capacity
@@ -165,6 +174,12 @@ impl Broker {
             (!old(self).channels@.contains_key(req.cookie) || req.capacity == 0
                 || !old(self).channels@[req.cookie].receiver.claimed_by(id.id()))
                 ==> final(self).channels@ == old(self).channels@ && final(self).conns@ == old(self).conns@,
+            // statistics: the channel counter follows the channel table, the other counters are untouched
+            old(self).stat_channels_ok() ==> final(self).stat_channels_ok(),
+            final(self).statistics.num_connections == old(self).statistics.num_connections,
+            final(self).statistics.num_objects == old(self).statistics.num_objects,
+            final(self).statistics.num_services == old(self).statistics.num_services,
+            final(self).statistics.num_bus_listeners == old(self).statistics.num_bus_listeners,
     //@end
 
     //@fn broker/src/broker.rs Broker::send_item
@@ -209,6 +224,12 @@ impl Broker {
                 && old(self).channels@[req.cookie].sender.claimed_by(id.id())
                 && old(self).channels@[req.cookie].receiver is Closed)
                 ==> final(self).channels@ == old(self).channels@ && final(self).conns@ == old(self).conns@,
+            // statistics: the channel counter follows the channel table, the other counters are untouched
+            old(self).stat_channels_ok() ==> final(self).stat_channels_ok(),
+            final(self).statistics.num_connections == old(self).statistics.num_connections,
+            final(self).statistics.num_objects == old(self).statistics.num_objects,
+            final(self).statistics.num_services == old(self).statistics.num_services,
+            final(self).statistics.num_bus_listeners == old(self).statistics.num_bus_listeners,
     //@end
 
     // ---- create_channel ---------------------------------------------------------------------------------------------
@@ -240,6 +261,12 @@ impl Broker {
                     }
                 &&& forall|k: ConnectionId| #![trigger final(self).conns@[k]] old(self).conns@.contains_key(k) && k != *id ==> final(self).conns@[k] == old(self).conns@[k]
             },
+            // statistics (exact below usize::MAX entries)
+            old(self).stat_channels_ok() && old(self).channels@.len() < usize::MAX ==> final(self).stat_channels_ok(),
+            final(self).statistics.num_connections == old(self).statistics.num_connections,
+            final(self).statistics.num_objects == old(self).statistics.num_objects,
+            final(self).statistics.num_services == old(self).statistics.num_services,
+            final(self).statistics.num_bus_listeners == old(self).statistics.num_bus_listeners,
     //@ghost after `self.channels.insert(cookie, channel);`
         proof {
             assert(!old(self).channels@.contains_key(cookie));
